@@ -33,5 +33,11 @@ StepOK(st) ==
       [] st.act = "poke" -> Same(st.before, st.after, {st.o}) /\ st.after[st.o] # st.before[st.o]
       [] OTHER -> FALSE
 HistOK == (Rec.op = "hist" /\ Done) => \A j \in 1..Len(Rec.steps) : StepOK(Rec.steps[j])
+\* a query is a function of the receiver's (and arguments') current value: the answer does not change when an
+\* earlier answer is overwritten by its owner, and after an in-place operation it is the answer an object that was
+\* never queried before gives (no hidden state installed by queries: memo tables, caches that go stale)
+PureOK == (Rec.op = "pure" /\ Done) =>
+    /\ Rec.again = Rec.first
+    /\ (Has("live") /\ Has("fresh")) => Rec.live = Rec.fresh
 NoCrash17 == ~Has("exc")
 =============================================================================
